@@ -296,9 +296,9 @@ func checkC18(e *RunEnv) *CheckResult {
 		}
 		{
 			// plus every distinct state of a bounded BFS over the C03 alphabet (hostile arguments included)
-			sub := &Spec{Seeds: []Seed{{"S2", seedS2()}, {"S5", seedS5()}}, Depth: 1, Steps: c03Steps(false)}
+			sub := &Spec{Seeds: []Seed{{"S2", seedS2()}, {"S5", seedS5()}}, Depth: 1, Steps: c03Steps(false), KeepStates: true}
 			if e.Thorough() {
-				sub = &Spec{Seeds: allSeeds(), Depth: 2, Steps: c03Steps(false)}
+				sub = &Spec{Seeds: allSeeds(), Depth: 2, Steps: c03Steps(false), KeepStates: true}
 			}
 			sx := NewExplorer(sub, x.Bin, filepath.Join(x.Scratch, "corpus"), x.Workers, x.Deadline)
 			sx.Run()
